@@ -18,14 +18,15 @@ type Duration time.Duration
 
 func (d Duration) marshalInternal() string {
 	negative := false
+	abs := uint64(d)
 	if d < 0 {
 		negative = true
-		d = -d
+		abs = -abs // this is correct for the minimum value too
 	}
 
-	day := Duration(86400 * time.Second)
-	days := d / day
-	nonDays := d % day
+	day := uint64(86400 * time.Second)
+	days := abs / day
+	nonDays := abs % day
 
 	ret := ""
 	if negative {
@@ -33,7 +34,7 @@ func (d Duration) marshalInternal() string {
 	}
 
 	if days > 0 {
-		ret += strconv.FormatInt(int64(days), 10) + "d"
+		ret += strconv.FormatUint(days, 10) + "d"
 	}
 
 	if nonDays != 0 {
